@@ -471,6 +471,12 @@ func (tb *TermBuilder) load(addr ssa.Value) *Term {
 		}
 		return tb.allocTerm(a)
 	case *ssa.FieldAddr:
+		// field of an element of a slice literal (a table): name what the literal put there
+		if ia, ok := a.X.(*ssa.IndexAddr); ok {
+			if t := tb.tableElem(ia, a.Field); t != nil {
+				return t
+			}
+		}
 		// field of a fresh local struct that is assigned exactly once: name the stored value
 		if al, ok := tb.Strip(a.X).(*ssa.Alloc); ok {
 			var only *ssa.Store
@@ -492,6 +498,12 @@ func (tb *TermBuilder) load(addr ssa.Value) *Term {
 			// a struct copied once as a whole from another local struct (`x := y`, a by-value argument): read y's field
 			if n == 0 && len(tb.stores[al]) == 1 && localOnly(al) {
 				if ld, isLd := tb.stores[al][0].Val.(*ssa.UnOp); isLd && ld.Op == token.MUL {
+					// `row := table[k]`: a copy of an element of a slice literal
+					if ia, isIA := ld.X.(*ssa.IndexAddr); isIA {
+						if t := tb.tableElem(ia, a.Field); t != nil {
+							return t
+						}
+					}
 					if src, isAl := tb.Strip(ld.X).(*ssa.Alloc); isAl && src != al {
 						key := fmt.Sprintf("%p.%d.copy", al, a.Field)
 						if tb.busyLoad == nil {
@@ -605,6 +617,206 @@ func localOnly(a *ssa.Alloc) bool {
 						return false
 					}
 				}
+			}
+		default:
+			return false
+		}
+	}
+	return true
+}
+
+// tableElem: ia addresses element k (a constant) of a slice literal — a local one, or the initialiser of a package
+// variable that nothing else in the package assigns; the result names what the literal stored into field f of that
+// element (field < 0: the element itself), or nil. For a package-level table only constants and functions qualify
+// (their terms mean the same in every function).
+func (tb *TermBuilder) tableElem(ia *ssa.IndexAddr, field int) *Term {
+	kc, ok := ia.Index.(*ssa.Const)
+	if !ok || kc.Value == nil || kc.Value.Kind() != constant.Int {
+		return nil
+	}
+	k, _ := constant.Int64Val(kc.Value)
+	var arr *ssa.Alloc
+	global := false
+	fn := tb.Fn
+	switch x := ia.X.(type) {
+	case *ssa.Slice:
+		if x.Low != nil || x.High != nil || x.Max != nil {
+			return nil
+		}
+		arr, _ = x.X.(*ssa.Alloc)
+		if arr == nil || !literalArray(arr, x) {
+			return nil
+		}
+	case *ssa.UnOp:
+		g, isG := x.X.(*ssa.Global)
+		if x.Op != token.MUL || !isG || g.Pkg == nil || g.Object() == nil || g.Object().Exported() {
+			return nil
+		}
+		init := g.Pkg.Func("init")
+		if init == nil {
+			return nil
+		}
+		// the only store to the variable in its package is the one of its initialiser
+		var st *ssa.Store
+		for _, mem := range g.Pkg.Members {
+			mf, isF := mem.(*ssa.Function)
+			if !isF {
+				continue
+			}
+			fns := append([]*ssa.Function{mf}, mf.AnonFuncs...)
+			for _, f := range fns {
+				for _, b := range f.Blocks {
+					for _, ins := range b.Instrs {
+						if s2, isSt := ins.(*ssa.Store); isSt && s2.Addr == ssa.Value(g) {
+							if st != nil || f != init {
+								return nil
+							}
+							st = s2
+						}
+					}
+				}
+			}
+		}
+		if st == nil {
+			return nil
+		}
+		sl, isSl := st.Val.(*ssa.Slice)
+		if !isSl || sl.Low != nil || sl.High != nil {
+			return nil
+		}
+		arr, _ = sl.X.(*ssa.Alloc)
+		if arr == nil || !literalArray(arr, sl) {
+			return nil
+		}
+		global = true
+		fn = init
+	default:
+		return nil
+	}
+	var found *ssa.Store
+	n := 0
+	for _, b := range fn.Blocks {
+		for _, ins := range b.Instrs {
+			st, isSt := ins.(*ssa.Store)
+			if !isSt {
+				continue
+			}
+			var eia *ssa.IndexAddr
+			if field >= 0 {
+				fa, isFA := st.Addr.(*ssa.FieldAddr)
+				if !isFA || fa.Field != field {
+					continue
+				}
+				eia, _ = fa.X.(*ssa.IndexAddr)
+			} else {
+				eia, _ = st.Addr.(*ssa.IndexAddr)
+			}
+			if eia == nil || eia.X != ssa.Value(arr) {
+				continue
+			}
+			ec, isC := eia.Index.(*ssa.Const)
+			if !isC || ec.Value == nil {
+				return nil
+			}
+			if ek, _ := constant.Int64Val(ec.Value); ek != k {
+				continue
+			}
+			n++
+			found = st
+		}
+	}
+	if n != 1 {
+		return nil
+	}
+	if global {
+		switch v := found.Val.(type) {
+		case *ssa.Const:
+			return &Term{Op: "const", Name: ConstString(v), Val: v}
+		case *ssa.Function:
+			return &Term{Op: "fn", Name: FuncName(v), Val: v}
+		}
+		return nil
+	}
+	return tb.Of(found.Val)
+}
+
+// GlobalLiteralLen: the length of the slice literal an unexported package variable is initialised with, provided the
+// initialiser's store is the only store to the variable in its package (0 otherwise).
+func GlobalLiteralLen(g *ssa.Global) int64 {
+	if g == nil || g.Pkg == nil || g.Object() == nil || g.Object().Exported() {
+		return 0
+	}
+	init := g.Pkg.Func("init")
+	if init == nil {
+		return 0
+	}
+	var st *ssa.Store
+	for _, mem := range g.Pkg.Members {
+		mf, isF := mem.(*ssa.Function)
+		if !isF {
+			continue
+		}
+		for _, f := range append([]*ssa.Function{mf}, mf.AnonFuncs...) {
+			for _, b := range f.Blocks {
+				for _, ins := range b.Instrs {
+					if s2, isSt := ins.(*ssa.Store); isSt && s2.Addr == ssa.Value(g) {
+						if st != nil || f != init {
+							return 0
+						}
+						st = s2
+					}
+				}
+			}
+		}
+	}
+	if st == nil {
+		return 0
+	}
+	sl, isSl := st.Val.(*ssa.Slice)
+	if !isSl || sl.Low != nil || sl.High != nil {
+		return 0
+	}
+	arr, _ := sl.X.(*ssa.Alloc)
+	if arr == nil || !literalArray(arr, sl) {
+		return 0
+	}
+	if at, ok := arr.Type().(*types.Pointer).Elem().Underlying().(*types.Array); ok {
+		return at.Len()
+	}
+	return 0
+}
+
+// literalArray: the backing array of a slice literal — it is only indexed (to fill it) and sliced once (sl), and the
+// slice is only indexed, measured or ranged over.
+func literalArray(arr *ssa.Alloc, sl *ssa.Slice) bool {
+	if arr.Referrers() == nil {
+		return false
+	}
+	for _, r := range *arr.Referrers() {
+		switch x := r.(type) {
+		case *ssa.IndexAddr, *ssa.DebugRef:
+		case *ssa.Slice:
+			if x != sl {
+				return false
+			}
+		default:
+			return false
+		}
+	}
+	if sl.Referrers() == nil {
+		return true
+	}
+	for _, r := range *sl.Referrers() {
+		switch x := r.(type) {
+		case *ssa.IndexAddr, *ssa.Range, *ssa.DebugRef:
+		case *ssa.Store:
+			// stored into the package variable it initialises (or a local that holds it)
+			if x.Val != ssa.Value(sl) {
+				return false
+			}
+		case *ssa.Call:
+			if b, isB := x.Common().Value.(*ssa.Builtin); !isB || (b.Name() != "len" && b.Name() != "cap") {
+				return false
 			}
 		default:
 			return false
